@@ -325,22 +325,74 @@ class _KwToPos(ast.NodeTransformer):
 
 
 class _SplitTupleAssign(ast.NodeTransformer):
-    """a, b = x, y  ->  a = x; b = y  (no cross-dependence)."""
+    """a, b = x, y  ->  a = x; b = y.
+
+    Universal form (no reference): only when no value reads any target.
+    Reference-guided form (`rf` given, used per function on the way to the
+    recorded form): all values are evaluated first, then the names are bound
+    left to right, so the sequence t1 = v1; t2 = v2; ... is the same program
+    iff no value reads a name bound *earlier* in the sequence (a later target
+    may be read: `old, x = x, f(..)`) and no name is bound twice.  A tuple
+    assignment the reference itself has (same shape modulo local names) is
+    left alone."""
+
+    def __init__(self, rf=None, fn=None, log=None, q=None):
+        self.rf = rf
+        self.log = log
+        self.q = q
+        self.ref_shapes = set()
+        self.names = set()
+        if rf is not None:
+            self.names = set(rf.get('locals', [])) | set(local_order(fn)[1])
+            self.ref_unpacked = set()
+            n_ref = 0
+            for nm, ds in rf.get('defs', {}).items():
+                for d in ds:
+                    if d.startswith('unpack'):
+                        self.ref_unpacked.add(nm)
+                        self.ref_shapes.add(_shape(d.split(':', 1)[1],
+                                                   self.names))
+                        if d.startswith('unpack0:('):
+                            n_ref += 1
+            n_cur = sum(1 for x in _own_nodes(fn) if self._is_form(x))
+            # only an *excess* of tuple assignments over the recorded form
+            # is undone
+            self.excess = n_cur > n_ref
+
+    @staticmethod
+    def _is_form(st):
+        return isinstance(st, ast.Assign) and len(st.targets) == 1 and \
+            isinstance(st.targets[0], ast.Tuple) and isinstance(
+                st.value, ast.Tuple) and \
+            len(st.targets[0].elts) == len(st.value.elts) and all(
+                isinstance(t, ast.Name) for t in st.targets[0].elts)
+
+    def _can_split(self, st):
+        tl = [t.id for t in st.targets[0].elts]
+        reads = [{x.id for x in ast.walk(v) if isinstance(x, ast.Name)}
+                 for v in st.value.elts]
+        if not any(r & set(tl) for r in reads):
+            return 'strict'
+        if self.rf is None or len(set(tl)) != len(tl):
+            return None
+        if not self.excess or set(tl) & self.ref_unpacked or \
+                _shape(_n(st.value), self.names) in self.ref_shapes:
+            return None
+        if any(reads[j] & set(tl[:j]) for j in range(len(tl))):
+            return None
+        return 'ordered'
 
     def _split(self, stmts):
         out = []
         for st in stmts:
-            if isinstance(st, ast.Assign) and len(st.targets) == 1 and \
-                    isinstance(st.targets[0], ast.Tuple) and isinstance(
-                        st.value, ast.Tuple) and \
-                    len(st.targets[0].elts) == len(st.value.elts) and all(
-                        isinstance(t, ast.Name) for t in st.targets[0].elts):
-                tn = {t.id for t in st.targets[0].elts}
-                used = set()
-                for v in st.value.elts:
-                    used |= {x.id for x in ast.walk(v)
-                             if isinstance(x, ast.Name)}
-                if not (tn & used):
+            if self._is_form(st):
+                how = self._can_split(st)
+                if how:
+                    if how == 'ordered' and self.log is not None:
+                        self.log.append(
+                            '%s: `%s` split into sequential assignments (no '
+                            'value reads an earlier target)'
+                            % (self.q, _n(st)))
                     for t, v in zip(st.targets[0].elts, st.value.elts):
                         out.append(ast.copy_location(ast.Assign(
                             targets=[t], value=v), st))
@@ -2719,6 +2771,91 @@ def _merge_forwarded_locals(fn, rf, log, q):
     ast.fix_missing_locations(fn)
 
 
+def _chain_texts(t):
+    """Text of an attribute/subscript chain and of every container on the
+    way to it (not the bare root name)."""
+    out = set()
+    while isinstance(t, (ast.Attribute, ast.Subscript)):
+        out.add(_n(t))
+        t = t.value
+    return out
+
+
+def _mentions(stmts, texts):
+    return any(isinstance(n, ast.expr) and _n(n) in texts
+               for s_ in stmts for n in ast.walk(s_))
+
+
+_PURE_FUNCS = ('len', 'float', 'int', 'abs', 'min', 'max', 'range')
+
+
+def _pure_value(e):
+    """No call except numpy/math functions and a few builtins; no lambda,
+    comprehension, await/yield, walrus."""
+    for n in ast.walk(e):
+        if isinstance(n, (ast.Lambda, ast.ListComp, ast.SetComp, ast.DictComp,
+                          ast.GeneratorExp, ast.Await, ast.Yield,
+                          ast.YieldFrom, ast.NamedExpr)):
+            return False
+        if isinstance(n, ast.Call):
+            f = n.func
+            if isinstance(f, ast.Name):
+                if f.id not in _PURE_FUNCS:
+                    return False
+                continue
+            r_ = f
+            while isinstance(r_, ast.Attribute):
+                r_ = r_.value
+            if not (isinstance(r_, ast.Name) and r_.id in ('np', 'math')):
+                return False
+    return True
+
+
+def _sink_build_block(blk, i, k, x):
+    """blk[i] is `X = D`, blk[k] is `T = X`.  Reorder blk[i:k] so that the
+    statements that mention X (its definition and the stores into it) come
+    last, directly before blk[k].  Allowed only if every statement involved
+    is a plain assignment of a call-free (numpy/math/builtin calls aside)
+    value, the X-statements write nothing but X / X[...], and they read
+    nothing that the statements they are moved past write (a stored chain,
+    one of its containers, or an extension of it).  Returns True if done."""
+    build, other = [blk[i]], []
+    for s_ in blk[i + 1:k]:
+        if any(isinstance(n, ast.Name) and n.id == x for n in ast.walk(s_)):
+            build.append(s_)
+        else:
+            other.append(s_)
+    if not other:
+        return False
+    for s_ in build + other:
+        if not (isinstance(s_, ast.Assign) and len(s_.targets) == 1 or
+                isinstance(s_, ast.AugAssign)):
+            return False
+        if not _pure_value(s_):
+            return False
+    for s_ in build[1:]:
+        t_ = s_.targets[0] if isinstance(s_, ast.Assign) else s_.target
+        if not isinstance(t_, ast.Subscript):
+            return False
+        while isinstance(t_, ast.Subscript):
+            t_ = t_.value
+        if not (isinstance(t_, ast.Name) and t_.id == x):
+            return False
+    written = set()
+    for s_ in other:
+        t_ = s_.targets[0] if isinstance(s_, ast.Assign) else s_.target
+        if isinstance(t_, ast.Name):
+            written.add(t_.id)
+        elif isinstance(t_, (ast.Attribute, ast.Subscript)):
+            written |= _chain_texts(t_)
+        else:
+            return False
+    if _mentions(build, written):
+        return False
+    blk[i:k] = other + build
+    return True
+
+
 def _dissolve_built_locals(fn, rf, log, q):
     """`X = D; X[i] = ...; T = X`  ->  `T = D; T[i] = ...` for a local X the
     reference does not know (a container built in a local and stored)."""
@@ -2756,11 +2893,33 @@ def _dissolve_built_locals(fn, rf, log, q):
                        if t_ is not tgt and _n(t_) == ttext]
             if rebinds:
                 continue
+            # ... nor a container T lives in, while X is still read
+            if any(isinstance(n, ast.Name) and n.id == x
+                   for s_ in blk[k + 1:] for n in ast.walk(s_)) and any(
+                    _n(t_) in _chain_texts(tgt) for s_ in blk[k + 1:]
+                    for a_ in ast.walk(s_) if isinstance(a_, ast.Assign)
+                    for t_ in a_.targets):
+                continue
             # operands of T are not re-bound in between
             ops = _names(tgt)
             if any(isinstance(n, ast.Name) and isinstance(n.ctx, ast.Store)
                    and n.id in ops for s_ in blk[i:k] for n in ast.walk(s_)):
                 continue
+            # T itself and the containers it lives in (self.clad for
+            # self.clad['r']) must not be touched while X is being built:
+            # `X = D; X[0] = ..; self.clad = {}; self.clad['r'] = X` cannot
+            # become `self.clad['r'] = D; ..; self.clad = {}`.  If they are,
+            # first sink the statements that build X down to the final store
+            # (past statements they provably commute with), then look again.
+            tset = _chain_texts(tgt)
+            if _mentions(blk[i:k], tset):
+                if not _sink_build_block(blk, i, k, x):
+                    continue
+                i = next(j for j, s_ in enumerate(blk) if s_ is st)
+                if _mentions(blk[i:k], tset):
+                    continue
+                log.append('%s: statements building %s moved down to its '
+                           'store into %s' % (q, x, ttext))
 
             class RT(ast.NodeTransformer):
                 def visit_Name(self, node):
@@ -3288,11 +3447,12 @@ def canonicalise(tree, modname, text=None):
         _conjunction_ifs(fn, rf, log, q)
         _orient_ifs(fn, rf, log, q)
         _loops_to_reference(fn, rf, log, q)
-        _SplitTupleAssign().visit(fn)
+        _SplitTupleAssign(rf, fn, log, q).visit(fn)
         _merge_accumulators(fn, rf, log, q)
         _merge_forwarded_locals(fn, rf, log, q)
         _dissolve_built_locals(fn, rf, log, q)
         _explode_dict_displays(fn, rf, log, q)
+        _dissolve_built_locals(fn, rf, log, q)
         _inline_indexed_comprehensions(fn, rf, log, q)
         _temps_and_names(fn, rf, log, q)
         _rehoist(fn, rf, log, q)
